@@ -87,7 +87,9 @@ def run(tier: str) -> int:
 
     type_of = {"plain": CompositeMove, "cdisp": CompositeDisplacementMove, "cexch": CompositeExchangeMove, "cop": CompositeOperation}
     fac = leaf_factories()
-    max_size = 4 if tier == "quick" else 5
+    # moves: trees of at most 4 elementary moves are enumerated exhaustively in both tiers (size 5 did not finish in 25 min:
+    # the tree space grows by ~40x per leaf); size 7 of the one-kind operation trees neither); the thorough tier widens the multiplication factor instead
+    max_size = 4
     states = trans = 0
     replayed = 0
     tmp = tempfile.mkdtemp(prefix="c17_")
@@ -98,9 +100,11 @@ def run(tier: str) -> int:
             cfg = os.path.join(tmp, f"alg_{domain}.cfg")
             txt = open(os.path.join(os.path.dirname(__file__), "..", "spec", base_cfg)).read()
             txt = txt.replace("MaxSize = 4", f"MaxSize = {size}")
+            if tier != "quick":
+                txt = txt.replace("MaxMul = 3", "MaxMul = 4")
             open(cfg, "w").write(txt)
             out = os.path.join(tmp, f"{domain}.ndjson")
-            r = run_tlc("Algebra", cfg, workers=8, env={"ALG_OUT": out}, timeout=1500)
+            r = run_tlc("Algebra", cfg, workers=8, env={"ALG_OUT": out}, timeout=900)
             if not r.ok:
                 if r.invariant_violated:
                     rep.violation(f"model:{r.invariant_violated[0]}:{domain}", f"TLC: invariant {r.invariant_violated[0]} violated in Algebra.tla ({domain}): the transcribed dispatch differs from the meaning", {"tlc_tail": r.out[-3000:]})
